@@ -6,12 +6,12 @@ CONFIG = {
                  "pc->row, pc->unit, pc->function, line->places, function->prologue end) + exhaustive-per-binary differential correspondence with the "
                  "real lookups on the debugger's own parsed tables + llvm-dwarfdump/objdump as independent decoder",
     "level_text": "Proved for every address-sorted row table and every query: the binary search returns the last index whose key is <= the target "
-                  "(C04_binary_search_*), pc->row is the last stored row with address <= pc (C04_pc_to_row_last) and a non-end_sequence row of greatest "
-                  "address <= pc when no end_sequence row shares an address with another row (C04_pc_to_row_partial; false in general: "
-                  "C04_pc_to_row_counterexample); pc->unit, pc->function (range containing pc with the greatest begin); every place of a line breakpoint is "
+                  "(C04_binary_search_*), pc->row is the last stored row with address <= pc (C04_pc_to_row_last) and, for EVERY line program as the parser stores it "
+                  "(stable sort by (address, !end_sequence), modelled: storeRows), a non-end_sequence row of greatest address <= pc whenever one exists "
+                  "(C04_pc_to_row, full strength after the repair of the sort); pc->unit, pc->function (range containing pc with the greatest begin); every place of a line breakpoint is "
                   "an is_stmt row of the line, or of the next line only if NO compilation unit has an is_stmt row of the line (one decision over the whole list of "
                   "units: C04_line_to_addrs_sound, _line_wins, _fallback), at most one per function; a function "
-                  "breakpoint is the first prologue_end row at or after low_pc (C04_fn_to_addr_partial under HasPE; counterexample without). The model is "
+                  "breakpoint is the first prologue_end row of the function at or after its low_pc row and below its end, else that low_pc row, so it lies inside the function's ranges whenever low_pc has a row (C04_fn_to_addr, _cases, _first_pe; full after the repair of prolog_end_place); file-range places are is_stmt rows that do not end a sequence (C04_file_range_places_sound). The model is "
                   "tied to the code on every run: the implementation's stored tables are shipped to the model, every instruction address of the user "
                   "functions, every source line and every function of several compiled binaries are asked on both sides and compared (two of the binaries are an rlib + a "
                   "binary crate in 16 codegen units: one source file with rows in up to 7 units; every line of every file for which some unit lacks "
@@ -20,8 +20,8 @@ CONFIG = {
     "level_note": "Trusted: Lean kernel + 3 standard axioms; the model<->code tie is sampling (per-binary exhaustive for user code, seeded samples of the "
                   "standard-library units); gimli's decoding is environment but its result is compared with llvm-dwarfdump on every run; path-template "
                   "matching is C17's theorem (queries use full paths). Completeness of line breakpoints (one per function containing the line) is NOT proved: "
-                  "it is false of the unchanged code (C04_line_to_addrs_counterexample, C04_line_to_addrs_counterexample_pe_lookahead, known findings). The oracle identifies a source file by its exact path (/rustc/<hash>/ remapped to the default toolchain's sources, the rule the debugger applies).",
-    "runs": {"quick": [{"n": 120, "timeout": 900}], "thorough": [{"n": 1500, "extra": ["--all-progs"], "timeout": 6000}]},
+                  "it is false of the code (C04_line_to_addrs_counterexample: sibling rule, known finding; the prologue_end look-ahead defect is repaired: C04_line_to_addrs_pe_lookahead_witness). The oracle identifies a source file by its exact path (/rustc/<hash>/ remapped to the default toolchain's sources, the rule the debugger applies).",
+    "runs": {"quick": [{"n": 120, "timeout": 3000}], "thorough": [{"n": 1500, "extra": ["--all-progs"], "timeout": 6000}]},
     "shrinkable": False,
     "trivial_answers": ["ok", "-", "bad-op", "", "none"],
     "assumptions": [
